@@ -143,6 +143,7 @@ def r5_3(ctx, fx):
 
 
 R55_EXC = {
+    ("generator_widening_assign", "select_wider_generators"): ("y", "if yy.update_generators() finds y empty it clears y's generators and the row-count comparison just above returns first (x non-empty has at least one row): select_wider_generators is reached only with y non-empty (replayed)"),
     ("generator_widening_assign", "reads", "y.gen_sys"): "yy.update_generators() is called for its effect; if it finds y empty it clears y's generators, and the row-count comparison that follows returns with x unchanged (x non-empty has at least one row): the correct result for an empty y (replayed)",
     ("Grid", "assert", "GU"): "Grid(const Polyhedron&): `use_constraints = ph.constraints_are_minimized() || !ph.generators_are_up_to_date()` is a computed bool the explorer cannot correlate; in its false branch the generators are up to date",
     ("upper_bound_assign_if_exact", "assert", "GU"): "the preceding x.is_included_in(y) returned false, which it does only after bringing the generators of x up to date (read in Grid_nonpublic.cc)",
@@ -154,10 +155,10 @@ R55_EXC = {
 def r5_5(ctx):
     from rules import precond
     rid = "R5.5"
-    ctx.rule(rid, "lazy-state assume/guarantee for Grid: the PPL_ASSERTs about congruences/generators being up to date or minimized (mined from the assertion-enabled view) are entry preconditions discharged at every call site along every CFG path, or entailed where they stand; update_congruences() additionally requires generators up to date (tabled implicit precondition); every content read of con_sys (gen_sys) happens in a state entailing congruences (generators) up to date. State: branch tests, update_* / minimize / set_* / clear_* members, and the invariants `minimized implies up to date` and `a non-empty grid has one description up to date`")
+    ctx.rule(rid, "lazy-state assume/guarantee for Grid: the PPL_ASSERTs about the object not being marked empty and about congruences/generators being up to date or minimized (mined from the assertion-enabled view) are entry preconditions discharged at every call site along every CFG path, or entailed where they stand; update_congruences() additionally requires generators up to date (tabled implicit precondition); every content read of con_sys (gen_sys) happens in a state entailing congruences (generators) up to date. State: branch tests, update_* / minimize / set_* / clear_* members, and the invariants `minimized implies up to date` and `a non-empty grid has one description up to date`")
     prev = precond.use(precond.GRID)
     try:
-        n = precond.discharge(ctx, rid, R55_EXC, judged_atoms=("CU", "GU", "NE"), direct=True)
+        n = precond.discharge(ctx, rid, R55_EXC, judged_atoms=("CU", "GU", "NE", "ME"), direct=True)
     finally:
         precond.use(prev)
     ctx.floor(rid, n, 120, "assertions, call sites and description reads with lazy-state obligations")
@@ -172,3 +173,8 @@ def run(ctx):
                        F.lib_unit("Grid_public.cc", name_re=r"Grid::Grid|operator=|Grid::(congruences|grid_generators|minimized_)")])
     r5_3(ctx, fx2)
     r5_5(ctx)
+    from rules import dirty
+    fxd = ctx.extract([F.lib_unit(n) for n in ("Grid_public.cc", "Grid_nonpublic.cc", "Grid_chdims.cc", "Grid_widenings.cc", "Grid_conversion.cc",
+                                                "Grid_simplify.cc", "Congruence.cc", "Congruence_System.cc", "Grid_Generator.cc",
+                                                "Grid_Generator_System.cc", "Grid_Certificate.cc")])
+    dirty.run(ctx, "R5.6", fxd, lambda f: True, 45, "judged on the Grid sources and the congruence / grid-generator classes")
